@@ -27,6 +27,7 @@ func runC16(c *Ctx) {
 	c16Unsafe(c)
 	c16Chunks(c, ge)
 	c16ReceiverMutation(c)
+	c16AppendOrder(c)
 }
 
 // lostReceiverWrites: a method with a VALUE receiver that stores into the receiver's fields (and does not return the
